@@ -243,11 +243,13 @@ def analyse(repo):
         notes.append("iter_excl: ChunkIter::Item is not a slice borrowed for the iterator's lifetime")
     # ---- auto traits
     alltxt = "\n".join(files.values())
-    send = bool(re.search(r"unsafe\s+impl\s*(<[^{]*?>)?\s*Send\s+for\s+Bump\b", alltxt))
+    # Send for every minimum alignment: the impl is generic over the const parameter and names it
+    sm = re.search(r"unsafe\s+impl\s*<\s*const\s+(\w+)\s*:\s*usize\s*>\s*Send\s+for\s+Bump\s*<\s*(\w+)\s*>", alltxt)
+    send = bool(sm) and sm.group(1) == sm.group(2)
     sync = bool(re.search(r"\bimpl\s*(<[^{]*?>)?\s*Sync\s+for\s+Bump\b", alltxt))
     coll_send = bool(re.search(r"\bimpl\s*(<[^{]*?>)?\s*Send\s+for\s+(Vec|RawVec|String)\b", alltxt))
     if not send:
-        notes.append("send: no `unsafe impl Send for Bump`")
+        notes.append("send: no `unsafe impl<const M: usize> Send for Bump<M>` (Send for every minimum alignment)")
     if sync:
         notes.append("sync: an `impl Sync for Bump` exists")
     if coll_send:
